@@ -273,6 +273,15 @@ class SigWorld(object):
             if kind == 'doc':
                 data = bytes.fromhex(st['data'])
                 sig = key.sign(data, **kw)
+                if st.get('uid_index') == 1:
+                    # the document padded so that the whole hash input (document, signature header and hashed area, six-octet
+                    # trailer) is an exact multiple of a buffer or hash block size
+                    body = split_packets(bytes(sig))[0].body
+                    hl = int.from_bytes(body[4:6], 'big')
+                    blk = [4096, 4096, 1024, 128][(st.get('level', 0) + st.get('sub_index', 0)) % 4]
+                    data = data + b'\xa5' * (-(len(data) + 6 + hl + 6) % blk)
+                    sig = key.sign(data, **kw)
+                    self.ctx.probe('hash_input_multiple_of_%d' % blk)
                 art.subject = {'t': 'doc', 'data': data}
                 self.last_live = (data, sig)
             elif kind == 'text':
